@@ -29,7 +29,7 @@ CLAIMED = {
             "Sent; no order-breaking queue operation; re-arm is paired with the DUP patch and resets every retained entry "
             "to Write{0} unconditionally. These are inductive "
             "who-may-mutate facts that hold for histories of any length and every crash point because they quantify "
-            "over all call sites and paths; retransmission byte-identity and counting are not computed. The acknowledgement removal takes out exactly the entry it looked up by identifier (index provenance), its lookup does not depend on data that changes while the packet is in flight, and the entry is removed before the reason code is examined; the arena clauses of C17 are evaluated here as well. The removal function reports true exactly on the paths that removed an entry. Every successful handshake stores the broker's Maximum Packet Size itself (CONNACK value or none), so a limit of an earlier connection cannot refuse the replay. ReasonCode::success is tabulated over every variant against the 0x80 boundary. The session reset is placed on the no-session edge of an accepted CONNACK (C05's clause).",
+            "over all call sites and paths; retransmission byte-identity and counting are not computed. The acknowledgement removal takes out exactly the entry it looked up by identifier (index provenance), its lookup does not depend on data that changes while the packet is in flight, and the entry is removed before the reason code is examined; the arena clauses of C17 are evaluated here as well. The removal function reports true exactly on the paths that removed an entry. Every successful handshake stores the broker's Maximum Packet Size itself (CONNACK value or none), so a limit of an earlier connection cannot refuse the replay. ReasonCode::success is tabulated over every variant against the 0x80 boundary. The session reset is placed on the no-session edge of an accepted CONNACK (C05's clause). The recorded resume offset of a partly written packet is the count reported and every write starts at it (C13's store rule, C15's write rule): nothing is re-sent within one connection.",
             "DESIGN.md §4 C02"),
     "C01": ("must-dataflow (DRAINED) + table extraction/value-set folding of fixed-header flags vs MQTT 5 Table 2-2 + "
             "dominance/wiring on mir_built",
@@ -69,7 +69,7 @@ CLAIMED = {
             "publishes still in flight at (re)connect; decrement tied to the successful enqueue and await-free; the gate "
             "dominates encoding; increments have the shape min(q+1,max), occur only in the PUBACK / PUBCOMP / failing-PUBREC "
             "arms, only after the matching removal, and on every such path. The counting invariant over histories follows "
-            "from these per-operation facts and is not itself computed. max_inflight() is a constant no larger than the capacity of either table an exchange passes through; the in-flight count entering the stored quota is read after the fresh-session reset. The removal functions whose result credits the window report true exactly when an entry was removed; both window fields are stored by every successful handshake. No PUBREL follows a failing PUBREC (C03's clause; its PUBCOMP would credit a second slot); ReasonCode::success tabulated. The in-flight count taken off a resumed window reads the packet type only, never the send state.",
+            "from these per-operation facts and is not itself computed. max_inflight() is a constant no larger than the capacity of either table an exchange passes through; the in-flight count entering the stored quota is read after the fresh-session reset. The removal functions whose result credits the window report true exactly when an entry was removed; both window fields are stored by every successful handshake. No PUBREL follows a failing PUBREC (C03's clause; its PUBCOMP would credit a second slot); ReasonCode::success tabulated. The in-flight count taken off a resumed window reads the packet type only, never the send state. No arm of the CONNACK property walk returns success or leaves the loop early: a Receive Maximum encoded after another property is still honoured.",
             "DESIGN.md §4 C06"),
     "C07": ("type-level fact (NonZeroU16) + wiring of every identifier sink to the allocator + must-pass over the "
             "allocator's lookups on mir_built",
@@ -83,7 +83,7 @@ CLAIMED = {
             "dominate the handshake on every path and connect() has no exit that bypasses the handshake; CONNECT is the first "
             "I/O; the CONNECT scratch must not depend on in-flight state (known finding: it is the arena tail). Because the "
             "resets are unconditional the clause holds for every prior history (all crash points of all operations) without "
-            "enumerating them. Broker behaviour is not modelled. What CONNECT advertises (Receive Maximum, Maximum Packet Size, Session Expiry) is computed from configuration and capacities, never from in-flight state. The window of a reconnected session is not charged for publishes discarded with the previous broker session. Compaction reclaims every hole (no return of compact bypasses the pass over the retained list), so the free tail CONNECT is encoded into is as large as the retained packets allow (C17's compact / used groups). The four negotiated runtime fields are stored by every successful handshake from the CONNACK or the default, never from their previous value. Nothing from a CONNACK reaches session state while its property block is examined, by store or by a call handed &mut of a state field (C08's rule).",
+            "enumerating them. Broker behaviour is not modelled. What CONNECT advertises (Receive Maximum, Maximum Packet Size, Session Expiry) is computed from configuration and capacities, never from in-flight state. The window of a reconnected session is not charged for publishes discarded with the previous broker session. Compaction reclaims every hole (no return of compact bypasses the pass over the retained list), so the free tail CONNECT is encoded into is as large as the retained packets allow (C17's compact / used groups). The four negotiated runtime fields are stored by every successful handshake from the CONNACK or the default, never from their previous value. Nothing from a CONNACK reaches session state while its property block is examined, by store or by a call handed &mut of a state field (C08's rule). A CONNECT that exactly fills the free tail is encoded: the serializer's bounds tests use the whole buffer (C09's rule).",
             "DESIGN.md §4 C12"),
     "C13": ("taint of transport byte counts vs. await points (Yield terminators of the pre-transform coroutine MIR) over "
             "the call tree + await-freedom of critical sections",
@@ -98,7 +98,7 @@ CLAIMED = {
             "Static analysis, structural clauses only: the four predicates are `len > max as usize` and answer PacketTooLarge; "
             "each transport write and each enqueue is dominated by the success edge of a size check of the very packet; "
             "CONNECT advertises the receive-buffer length and the broker limit is written only from the CONNACK; the receive "
-            "window is sliced only within the buffer. Sizes around the limit are not enumerated. Every successful handshake stores the limit itself, so it is the limit of the current CONNACK. The reader's refusal of an oversize packet latches the handle (C11's inbound latch clauses).",
+            "window is sliced only within the buffer. Sizes around the limit are not enumerated. Every successful handshake stores the limit itself, so it is the limit of the current CONNACK. The reader's refusal of an oversize packet latches the handle (C11's inbound latch clauses). The CONNACK property walk reaches every property.",
             "DESIGN.md §4 C14"),
     "C09": ("table extraction from MIR (match arms, generic arguments, aggregates) compared cell by cell with MQTT 5 and "
             "between sibling tables; value-set folding of flag bytes with control-dependence guards; interval abstract "
@@ -108,7 +108,7 @@ CLAIMED = {
             "encoded_len vs the varint boundaries for every bit-length class; CONNECT flags, subscription options and "
             "PUBLISH flags bit by bit with their guards; CONNECT field wiring and the field order of all packet "
             "serializers; checked u16 length prefixes. This covers all property kinds x packets without enumerating "
-            "values. Byte-level round trips and user payload closures are not decided. Properties::size adds up encoded sizes, never element counts. The integer primitives of serializer and deserializer are big-endian in stream order. The publication builder keeps a correlation entry whatever user properties are installed before or after it (C20's clauses). Header QoS and identifier allocation use the same effective QoS (C19's rule).",
+            "values. Byte-level round trips and user payload closures are not decided. Properties::size adds up encoded sizes, never element counts. The integer primitives of serializer and deserializer are big-endian in stream order. The publication builder keeps a correlation entry whatever user properties are installed before or after it (C20's clauses). Header QoS and identifier allocation use the same effective QoS (C19's rule). The serializer's three bounds tests refuse exactly when the data does not fit (linear-inequality reading of the guard: L - I - n < 0), so nothing that fits is refused and nothing that does not is written; CONNECT's Maximum Packet Size is the receive-buffer length widened to u32 (C14's clause).",
             "DESIGN.md §4 C09"),
     "C10": ("who-may-write + dependence (fields read by the ping-due test) + dominance/post-dominance + decision-table "
             "extraction (truth table of the due test over the Option states) + interval abstract interpretation of the "
@@ -119,7 +119,7 @@ CLAIMED = {
             "both deadlines, one shared constant, zero disables, and (by interval abstract interpretation over keep-alive "
             "classes) that the PINGREQ lead time is positive and below the keep-alive for every keep-alive >= 1 s. Every other "
             "arithmetic or temporal aspect (the observed gap never exceeding the keep-alive, coincidences at the deadlines, "
-            ">= vs >) is NOT decided: it needs a model of time. service() (which tests the PINGRESP deadline first) is called only when no complete inbound packet is waiting.",
+            ">= vs >) is NOT decided: it needs a model of time. service() (which tests the PINGRESP deadline first) is called only when no complete inbound packet is waiting. The CONNACK property walk reaches every property (a Server Keep Alive after another property is still honoured).",
             "DESIGN.md §4 C10"),
     "C15": ("wiring of partial-I/O counts + value-set evaluation of the reader's look-ahead on mir_built",
             "PARTIAL: static analysis decides only that partial-I/O counts are what advances state: commit(count of this "
@@ -132,7 +132,7 @@ CLAIMED = {
             "only compact and the DUP patch otherwise write arena bytes; the patch shape; compact's copy/bookkeeping/cursor "
             "shape and order; (offset,len) wiring encoder -> retained entry -> step -> slice; writers of `used`; free space "
             "is a function of the retained entries. Leak freedom over long histories is argued from these who-may-write "
-            "facts (they hold for histories of any length), not measured; compact's arithmetic is not evaluated. An acknowledgement with a failure code still releases the retained packet (entry removed before the reason code is examined, in all five arms). No return of compact bypasses the pass over the list; the in-flight count charged to a fresh window is read after the reset (C06's clause).",
+            "facts (they hold for histories of any length), not measured; compact's arithmetic is not evaluated. An acknowledgement with a failure code still releases the retained packet (entry removed before the reason code is examined, in all five arms). No return of compact bypasses the pass over the list; the in-flight count charged to a fresh window is read after the reset (C06's clause). The receive window is stored afresh by every handshake, never derived from the previous connection's value (shared per-connection clause).",
             "DESIGN.md §4 C17"),
     "C18": ("decision-table extraction of Session::status by constraint-tracking path enumeration + wiring + path-sensitive "
             "must-pass in the five acknowledgement arms",
@@ -146,14 +146,14 @@ CLAIMED = {
             "Static analysis, structural clauses only: is_valid_for table vs MQTT 5 (must-accept / must-reject / don't-care); "
             "value predicates as intervals; valid_for covers everything serialize emits; validation with the right context "
             "dominates allocation, encode, enqueue, quota and writes; empty lists refused first; downgraded QoS used "
-            "everywhere; DISCONNECT scratch (known finding). All 27 kinds x 5 contexts are decided as table cells. Tearing the handle down counts among the traces a refused request must not leave. Every exit that reports a fatal error has passed the latch the operations' live gate tests (C11's clauses); Maximum QoS is stored by every successful handshake. Every operation tests the latch first (C11's entry rule).",
+            "everywhere; DISCONNECT scratch (known finding). All 27 kinds x 5 contexts are decided as table cells. Tearing the handle down counts among the traces a refused request must not leave. Every exit that reports a fatal error has passed the latch the operations' live gate tests (C11's clauses); Maximum QoS is stored by every successful handshake. Every operation tests the latch first (C11's entry rule). The CONNACK property walk reaches every property (a Maximum QoS after another property is still honoured).",
             "DESIGN.md §4 C19"),
     "C20": ("wiring chain (expression reconstruction) from inbound property lookup to the reply publication + "
             "fallible-conversion census",
             "Static analysis, structural clauses only: each link of the chain response_topic/correlation_data -> "
             "response_target -> publication -> correlate/with_correlation -> with_properties keeps exactly the requester's "
             "topic and correlation data; lookups are independent fresh iterations (position independent); owned copies use "
-            "only fallible conversions mapped to BufferTooSmall. Byte-level encoding is C09. Every property identifier decodes to its own Property variant (nothing else can turn into ResponseTopic / CorrelationData). No return of with_properties bypasses the test for a correlation entry. The property iterator advances by exactly what each property occupied; a correlated block's declared size is the sum of encoded sizes (C09's rule).",
+            "only fallible conversions mapped to BufferTooSmall. Byte-level encoding is C09. Every property identifier decodes to its own Property variant (nothing else can turn into ResponseTopic / CorrelationData). No return of with_properties bypasses the test for a correlation entry. The property iterator advances by exactly what each property occupied; a correlated block's declared size is the sum of encoded sizes (C09's rule). Correlation data and response topic of every length up to 65535 are written with a checked two-byte length (C09's rule).",
             "DESIGN.md §4 C20"),
     "C08": ("panic-site enumeration over the inbound call graph (MIR Assert terminators + panicking callees) with "
             "guard-dominance re-verification; decode-table extraction vs MQTT 5; shape analysis of the varint reader; "
@@ -164,7 +164,7 @@ CLAIMED = {
             "trailing-payload whitelist and the varint bounds/overlong test against MQTT 5; the unreachable!() sites are dead "
             "by variant flow; decode/protocol errors latch (C11 inbound clauses); the packet reader is reset before every handshake (C12's rule); every property identifier decodes to its own variant and the property iterator advances by exactly what each property occupied. 'No panic for any byte string' is thereby a "
             "finite obligation list instead of a sampled input space. Exact field values are decided only through the C09 "
-            "type/layout tables. Nothing from a CONNACK is written into session state while its property block is still being examined.",
+            "type/layout tables. Nothing from a CONNACK is written into session state while its property block is still being examined. Both variable-byte-integer readers take the low seven bits of each byte, shift the group by seven per byte index and combine it with the groups read so far.",
             "DESIGN.md §4 C08"),
 }
 
